@@ -7,6 +7,9 @@ hook_shas = [l.split()[0] for l in hooks_commits if l.split(' ',1)[1].startswith
 
 # property id -> (engine, technique, level text, level note, design_ref)
 CHECKS = {
+ 'C10': ('hist', 'bounded-exhaustive enumeration (values x operators x keys x sets x removal scenarios; all ordered pairs of insertions) plus explicit-state exploration of histories with a search-vs-scan oracle in every state',
+         'Every search entry point (store.find_data, dataset.find_data, key.data().filter_value, test_data, key.data(), data_by_value) is compared with a full scan for every dataset, key (known/unknown/any) and operator of an 81-operator menu on five fixed stores holding 18 values of all seven types (after key/data removals) and in every state of the history exploration; DataValue::test is compared with a transcription of the operator documentation and the Not/And/Or laws; every ordered pair of id-less insertions must share equal values and keep the key unique.',
+         'Bounded menus and depth. Cross-type comparisons are undocumented and only checked differentially.', 'DESIGN.md section 4 C10'),
  'C18': ('hist', 'explicit-state exploration of histories; per state and protection mode: protect, validate, reload, then the exhaustive set of single-codepoint edits of every resource text, reload and validate',
          'In every distinct state with annotations reached by the history exploration (depth 3 quick / 4 thorough, plus an exploration from a 45-codepoint resource for the checksum branch of Auto) and for each of the four modes: protect_text succeeds, every annotation that selects text validates before and after a JSON round trip, and for every single-codepoint substitution / insertion / deletion of every resource text the reloaded store reports Some(false) exactly for the annotations whose selected characters changed.',
          'Bounded depth/alphabet; edits are single-codepoint; edits that push an offset out of range make the store unloadable and are skipped.', 'DESIGN.md section 4 C18'),
